@@ -22,7 +22,7 @@ Extraction "model.ml" HeapModel.step HeapModel.run HeapModel.pop_all_e HeapModel
   CodecModel.vtype CodecModel.pd_empty CodecModel.binary_search CodecModel.leaf_kinds
   VssModel.vss_run
   PhsModel.rejection_sample PhsModel.rejection_sample_minmax PhsModel.direct_sample PhsModel.direct_sample_minmax
-  ControlModel.pwv_run ControlModel.cadjudicate
+  ControlModel.pwv_run ControlModel.dcs_run ControlModel.cadjudicate
   PathModel.interp_counts PathModel.total_states PathModel.subdivide_counts
   PisModel.qstep PisModel.qrun PisModel.drain_starts
   LedgerModel.adjudicate LedgerModel.admissible LedgerModel.report_path LedgerModel.extend
